@@ -1,32 +1,338 @@
 """C17 -- input files round-trip: phonon data write/read, static table parse, fill output.
 
-write_energy / read_energy, read_elast_data and cli/fill.main are %-formatting, regexes, float() and pandas
-to_string: neither engine reasons about decimal formatting and the string theories of z3/cvc5 do not decide
-"%12.6f" % x composed with float().  The contracts are therefore checked at run time only (bounded stand-in).
+Deductive fragment (engine E6, vf/regauto.py + pyvc): the regular expressions the readers use are proved, over ALL strings
+of the language the writer can emit for a line (extracted from write_energy's AST: f-strings / %-formats), to capture exactly
+the written field tokens; _find_modulus_key is executed path-wise from its AST against the contracts of re.search and c_, and
+its pattern is proved to accept exactly <prefix><digits> headers and to capture the digits.  What stays bounded: the line
+*structure* (counts of volumes / q-points / modes), decimal formatting composed with float() (to the written precision), pandas
+printing in the fill command -- run-time contracts on the real functions.
 """
-import importlib, io, os, random, shutil, tempfile
+import importlib, io, os, random, re, shutil, tempfile
 import numpy
+import z3
 from vf import core
 
-LEVEL = "exploration"
-EXPLANATION = ("bounded stand-in: run-time contracts (round-trip postconditions stated from the property) on the real reader/writer functions and "
-               "the real fill command, driven by seeded random data sets; nothing is proved")
+LEVEL = "other"
+EXPLANATION = ("regex lemmas over all strings of the writer's line languages (tagged-automata inclusion on CPython's own parse of the patterns) and a "
+               "path-complete AST run of _find_modulus_key are proved; the file structure, decimal formatting and the fill command are bounded "
+               "run-time contracts on the real functions (labelled bounded)")
 
 
 def run(s):
     qi = importlib.import_module("cij.io.traditional.qha_input")
     ed = importlib.import_module("cij.io.traditional.elast_dat")
     s.assume("A-PANDAS, A-CLICK", "decimal formatting / float parsing of CPython")
-    s.undecided_part("everything: decimal formatting, regexes and pandas printing are outside both deductive engines; bounded run-time contracts only")
+    s.undecided_part("line structure for arbitrary counts (nv, nq, np), '%12.6f' composed with float() to the written precision, pandas printing and the "
+                     "fill command: bounded run-time contracts only")
     rnd = random.Random(s.seed)
     tmp = tempfile.mkdtemp(prefix="c17_")
     try:
+        deductive(s, qi, ed, tmp)
         phonon_round_trip(s, qi, rnd, tmp)
         static_tables(s, ed, rnd, tmp)
         fill_command(s, ed, rnd, tmp)
     finally:
         shutil.rmtree(tmp, ignore_errors=True)
-    s.min_obligations = 0
+    s.min_obligations = 5
+
+
+# =========================================================================================== deductive fragment
+KEY_SPEC = r"[^\d\s]*(\d+)"       # a column header: any prefix without digits / blanks, then the index digits (property statement)
+KEY_DOMAIN = r"\S+"               # headers are whitespace-separated tokens
+
+
+def explore_find_modulus_key(ed):
+    """pyvc run of the real _find_modulus_key with `re` and `c_` as external contracts: returns (patterns searched, summary,
+    problems)."""
+    from vf import pyvc
+    mod = pyvc.Module(ed.__file__, ed)
+    key = pyvc.ExtV(("key",))
+    patterns = []
+    mbool = {}
+
+    def search(vm, args, kwargs):
+        if kwargs or len(args) != 2:
+            raise core.OutsideSubset("re.search call shape")
+        pat, subj = args
+        if not (isinstance(pat, pyvc.ConstV) and isinstance(pat.py, str)):
+            raise core.OutsideSubset("re.search pattern is not a module-level string constant")
+        if subj is not key:
+            raise core.OutsideSubset("re.search on something other than the column header")
+        if pat.py not in patterns:
+            patterns.append(pat.py)
+        b = mbool.setdefault(pat.py, z3.Bool("matches_%d" % len(mbool)))
+
+        def attr(vm2, name):
+            if not vm2.decide(b):
+                raise pyvc.Raised("AttributeError", "None.%s" % name)
+            if name != "group":
+                raise core.OutsideSubset("match.%s" % name)
+
+            def group(vm3, a, k):
+                if k or len(a) != 1 or not isinstance(a[0], pyvc.IntV) or not z3.is_int_value(a[0].z):
+                    raise core.OutsideSubset("match.group call shape")
+                return pyvc.ExtV(("group", pat.py, a[0].z.as_long()))
+            return pyvc.ExtV(("match.group",), call=group)
+        return pyvc.ExtV(("match", pat.py), attr=attr, truth=lambda vm2: vm2.decide(b))
+
+    def re_attr(vm, name):
+        if name != "search":
+            raise core.OutsideSubset("re.%s" % name)
+        return pyvc.ExtV(("re.search",), call=search)
+
+    def c_call(vm, args, kwargs):
+        if kwargs or len(args) != 1 or not isinstance(args[0], pyvc.ExtV):
+            raise core.OutsideSubset("c_ call shape")
+        return pyvc.ExtV(("c_", args[0].key))
+    mod.externals = {"re": pyvc.ExtV(("re",), attr=re_attr), "c_": pyvc.ExtV(("c_",), call=c_call)}
+    vm = pyvc.VM(mod)
+    outs = vm.explore(mod.functions["_find_modulus_key"], [key])
+    return patterns, mbool, outs, key
+
+
+def ob_key_body(ed, box):
+    patterns, mbool, outs, key = explore_find_modulus_key(ed)
+    if len(patterns) != 1:
+        raise core.OutsideSubset("_find_modulus_key searches %d patterns" % len(patterns))
+    pat = patterns[0]
+    box["pattern"] = pat
+    b = mbool[pat]
+    seen = set()
+    for o in outs:
+        sv = z3.Solver()
+        sv.add(*o.pc)
+        sv.add(*o.defs)
+        matched = None
+        sv.push(); sv.add(z3.Not(b)); m1 = sv.check() == z3.unsat; sv.pop()
+        sv.push(); sv.add(b); m0 = sv.check() == z3.unsat; sv.pop()
+        if m1 == m0:
+            raise core.OutsideSubset("a path of _find_modulus_key does not depend on the search result in a decidable way")
+        matched = m1
+        seen.add(matched)
+        if o.kind != "return":
+            return core.refuted("pyvc", "_find_modulus_key raises %s when the search %s" % (o.exc, "matches" if matched else "does not match"),
+                                witness_id="raises:%s" % matched, replay=native_key(ed, "c11" if matched else "V"))
+        k = getattr(o.value, "key", None)
+        want = ("c_", ("group", pat, 1)) if matched else ("key",)
+        if k != want:
+            return core.refuted("pyvc", "when the search %s the function returns %r, the contract requires %s"
+                                % ("matches" if matched else "does not match", o.value, "c_(match.group(1))" if matched else "the header unchanged"),
+                                witness_id="returns:%s" % matched, replay=native_key(ed, "c11" if matched else "V"))
+    if seen != {True, False}:
+        return core.refuted("pyvc", "paths cover only search outcomes %s" % sorted(seen), witness_id="paths")
+    return core.proved("pyvc", "2 paths: match -> c_(group 1 of re.search(%r, header)); no match -> header itself" % pat,
+                       sample="forall header: _find_modulus_key(header) == (c_(m.group(1)) if (m := re.search(%r, header)) else header)" % pat)
+
+
+def native_key(ed, w, spec=KEY_SPEC):
+    """the real function on the witness, with c_ recording its argument"""
+    from contracts.nonshear_env import patched
+    m = re.fullmatch(spec, w)
+    want = ("c_", m.group(1)) if m else w
+    try:
+        with patched(ed, c_=lambda x: ("c_", x)):
+            got = ed._find_modulus_key(w)
+    except Exception as e:
+        got = "raises %r" % e
+    return {"reproduced": got != want, "input": w, "observed": repr(got), "expected": repr(want)}
+
+
+def ob_regex_lemma(pattern, spec, domain, what, replay_fn=None, extra=()):
+    from vf import regauto
+    bad, n, nm = regauto.crosscheck(pattern, extra=extra)
+    if bad:
+        raise core.EngineUnsound("ordered-automaton semantics of %r disagree with CPython re on %r" % (pattern, bad[:2]))
+    res, ctx = regauto.search_lemma(pattern, spec, domain)
+    for name, ok, w in res:
+        if not ok:
+            wit = w[0]
+            r = core.refuted("regauto", "%s: lemma `%s` fails for pattern %r against the language %r: witness string %r (%s)"
+                             % (what, name, pattern, spec, wit, w[1]), witness_id=name, model={"string": wit})
+            if replay_fn:
+                r.replay = replay_fn(wit)
+            return r
+    return core.proved("regauto", "%s: %s over all strings (%d character classes; automaton cross-checked against CPython re on %d strings, %d matching)"
+                       % (what, ", ".join(n for n, _, _ in res), ctx.nclasses, n, nm),
+                       sample="pattern %r\nlanguage %r\nlemmas: %s" % (pattern, spec, [n for n, _, _ in res]))
+
+
+def native_search(pattern, spec):
+    def f(w):
+        m, sp = re.search(pattern, w), re.fullmatch(spec, w)
+        got = None if m is None else (m.start(), m.groups())
+        want = None if sp is None else (0, sp.groups())
+        return {"reproduced": got != want, "input": w, "observed": "re.search -> %r" % (got,), "expected": "%r" % (want,)}
+    return f
+
+
+class PairingFailed(Exception):
+    pass
+
+
+class _TrackedStr(str):
+    log = None
+
+    def strip(self, *a):
+        r = _TrackedStr(str.strip(self, *a))
+        r.origin, r.rel = getattr(self, "origin", str(self)), "strip"
+        return r
+
+    def split(self, *a, **k):
+        out = str.split(self, *a, **k)
+        if not a and not k and _TrackedStr.log is not None:
+            _TrackedStr.log.append((getattr(self, "origin", str(self)), getattr(self, "rel", "raw"), list(out)))
+        return out
+
+
+class _TrackedFile:
+    def __init__(self, path):
+        with open(path, encoding="utf8") as fp:
+            self.lines = fp.readlines()
+        self.i = 0
+
+    def __enter__(self): return self
+    def __exit__(self, *a): return False
+    def __iter__(self): return self
+
+    def __next__(self):
+        if self.i >= len(self.lines):
+            raise StopIteration
+        self.i += 1
+        t = _TrackedStr(self.lines[self.i - 1])
+        t.origin, t.rel = str(t), "raw"
+        return t
+
+    def readline(self):
+        try:
+            return next(self)
+        except StopIteration:
+            return ""
+
+    def read(self):
+        rest = "".join(self.lines[self.i:])
+        self.i = len(self.lines)
+        return rest
+
+
+def phonon_pairing(s, qi, tmp):
+    """one sentinel write/read with the reader's searches and whitespace splits recorded; every (pattern or split, line
+    template) pair found becomes a lemma over the template's whole language"""
+    from contracts import textio_env as tio
+    from contracts.nonshear_env import patched
+    templates = tio.templates_of_function(qi.write_energy)
+    vols = []
+    val = iter([x * 1.0009765625 + 0.5 for x in range(7, 400, 3)])
+    for v in range(2):
+        qs = [qi.QPointData((next(val) / 64, -next(val) / 64, next(val) / 64), [next(val), -next(val), next(val)]) for _ in range(2)]
+        vols.append(qi.VolumeData(-next(val), next(val) + 200, -next(val) - 1000, qs))
+    weights = [((next(val) / 64, next(val) / 64, -next(val) / 64), float(k + 1)) for k in range(2)]
+    data = qi.QHAInputData(2, 2, 3, 1, 1, weights, vols)
+    path = os.path.join(tmp, "pairing_input01")
+    qi.write_energy(path, data, comment="pairing run")
+    rec = tio.RecordingRe()
+    _TrackedStr.log = []
+    try:
+        with patched(qi, re=rec, open=lambda p, *a, **k: _TrackedFile(p)):
+            try:
+                qi.read_energy(path)
+            except core.OutsideSubset:
+                raise
+            except Exception as e:
+                raise PairingFailed("read_energy raises %r on the file write_energy produced for a 2-volume, 2-q-point, 3-mode data set "
+                                    "(last line searched: %r)" % (e, rec.calls[-1][1] if rec.calls else None))
+    finally:
+        splits, _TrackedStr.log = _TrackedStr.log, None
+    raw = open(path, encoding="utf8").readlines()
+    names = {v: k for k, v in vars(qi).items() if k.startswith("REGEX") and isinstance(v, str)}
+    pairs = {}
+
+    def locate(searched, rel_hint=None):
+        for ln in raw:
+            if searched == ln:
+                return ln, "raw"
+        for ln in raw:
+            if searched == ln.strip():
+                return ln, "strip"
+        return None, None
+    n_const = 0
+    for pattern, searched, matched, flags in rec.calls:
+        if flags:
+            raise core.OutsideSubset("regex flags in a reader search")
+        ln, rel = locate(searched)
+        if ln is None:
+            raise core.OutsideSubset("the reader searched %r, which is neither a line of the file nor its strip()" % searched)
+        hit = tio.match_template(templates, ln)
+        if hit is None:
+            n_const += 1            # constant line of the writer (comment, labels, blank): nothing to generalise
+            if matched and ln.strip() not in ("pairing run",):
+                pass
+            continue
+        lineno, parts, reps = hit
+        pairs.setdefault(("search", pattern, lineno, rel, tuple(reps), matched), (parts, reps, ln))
+    for origin, rel, toks in splits:
+        ln, _ = locate(origin)
+        if ln is None:
+            continue
+        hit = tio.match_template(templates, ln)
+        if hit is None:
+            continue
+        lineno, parts, reps = hit
+        pairs.setdefault(("split", None, lineno, rel, tuple(reps), True), (parts, reps, ln))
+    return pairs, names, n_const, len(rec.calls), len(splits)
+
+
+def deductive(s, qi, ed, tmp):
+    from contracts import textio_env as tio
+    s.trust("vf/regauto.py (regex -> ordered tagged automata, subset construction)", "CPython re._parser (parse tree of the pattern)")
+    s.assume("A-RE: CPython's re.search returns the highest-priority successful backtracking path at the smallest start position "
+             "(the automaton semantics are cross-checked against CPython on random strings every run)",
+             "A-PRINTF: '%w.pf' / format(x, 'w.pf') of a finite float produce optional blanks then -?digits.digits{p}; '%wd' of a natural number blanks then digits",
+             "A-SPLIT: str.split() returns the maximal runs of non-whitespace characters")
+    box = {}
+    s.oblige("C17._find_modulus_key.body", lambda: ob_key_body(ed, box), ["elast_dat._find_modulus_key"])
+    pat = box.get("pattern", getattr(ed, "REGEX_MODULUS", None))
+    s.oblige("C17._find_modulus_key.regex_over_all_headers",
+             lambda: ob_regex_lemma(pat, KEY_SPEC, KEY_DOMAIN, "column headers <prefix><digits>", lambda w: native_key(ed, w),
+                                    extra=["c11", "C_12", "Cij1123", "V", "c1x", "11", "c-44"]), ["elast_dat.REGEX_MODULUS"])
+    s.canary("C17.canary.key_regex_restricted_to_letter_c",
+             lambda: ob_regex_lemma(r"^[cC]_?(\d+)$", KEY_SPEC, KEY_DOMAIN, "canary"))
+    try:
+        pairs, names, n_const, n_calls, n_splits = phonon_pairing(s, qi, tmp)
+    except core.OutsideSubset as e:
+        s.oblige("C17.read_energy.pairing", lambda: core.unknown("engine", "outside subset: %s" % e), ["qha_input.read_energy"])
+        return
+    except PairingFailed as e:
+        s.oblige("C17.read_energy.pairing", lambda: core.refuted("runtime-contract", str(e), witness_id="pairing-run-raises",
+                                                                 replay={"reproduced": True, "observed": str(e)}), ["qha_input.read_energy"])
+        return
+    n = 0
+    for (kind, pattern, lineno, rel, reps, matched), (parts, reps_, ln) in sorted(pairs.items(), key=lambda kv: (kv[0][0], kv[0][2], str(kv[0][1]))):
+        # precondition of the writer's contract: the %d fields are the counts nv, nq, np, nm, na (natural numbers)
+        spec, nf, fields = tio.spec_regex(parts, list(reps_), strip=(rel == "strip"), nat_ints=True)
+        if rel == "raw":
+            spec += r"\n"
+        desc = "writer line template (write_energy source line +%d: %s)" % (lineno, " ".join(f.spec for f in fields))
+        if kind == "search":
+            label = names.get(pattern, "pattern:%s" % pattern[:24])
+            if not matched:
+                s.oblige("C17.read_energy.%s.on_template_%s" % (label, "_".join(f.spec for f in fields)),
+                         lambda: core.unknown("engine", "outside subset: the reader's search fails on a formatted line"), [])
+                continue
+            s.oblige("C17.read_energy.%s.captures_written_fields" % label,
+                     lambda pattern=pattern, spec=spec, desc=desc, ln=ln: ob_regex_lemma(pattern, spec, None, desc, native_search(pattern, spec),
+                                                                                  extra=[ln, ln.strip()]),
+                     ["qha_input.%s" % label, "qha_input.write_energy (line templates)"])
+        else:
+            k = len(fields)
+            pattern = r"^\s*" + r"\s+".join([r"(\S+)"] * k) + r"\s*$"
+            s.oblige("C17.read_energy.split_yields_written_fields[%s]" % ",".join(f.spec for f in fields),
+                     lambda pattern=pattern, spec=spec, desc=desc, ln=ln: ob_regex_lemma(pattern, spec, None, desc + " under str.split()",
+                                                                                  native_search(pattern, spec), extra=[ln]),
+                     ["qha_input.write_energy (line templates)", "qha_input._read_weights / _read_volume_data (split)"])
+        n += 1
+    s.canary("C17.canary.fields_written_without_separator",
+             lambda: ob_regex_lemma(r"^\s*(\S+)\s+(\S+)\s*$", r" *(-?[0-9]+\.[0-9]{6}) *(-?[0-9]+\.[0-9]{6})\n", None, "canary"))
+    s.pairing_info = {"reader_searches_recorded": n_calls, "reader_splits_recorded": n_splits, "constant_lines_searched": n_const, "lemmas": n}
 
 
 def rand_val(rnd, mag):
@@ -246,12 +552,16 @@ def fill_command(s, ed, rnd, tmp):
 
 
 MANIFEST = {
-    "engine": "rtc", "category": "exploration",
-    "technique": "bounded stand-in: run-time contracts on the real reader/writer functions and the fill command (no deductive obligation)",
-    "text": "Not decided deductively: the functions are decimal formatting, regexes and pandas printing. The round-trip postconditions of the property "
-            "are evaluated on the real functions for seeded random inputs: write_energy/read_energy (counts, P, V, E, frequencies, q-coordinates, "
-            "weights to the written precision, magnitudes up to 1e5 of either sign), read_elast_data on rendered tables (reference volume, cell mass, "
-            "volumes, components under canonical keys for nine prefixes and three index spellings, lattice block), and `cij fill` (output parses and "
-            "equals the symmetry-filled parse of the input; header, volumes, lattice block preserved; nine systems).",
-    "note": "bounded: 40/60/9 (quick) and 1500/2000/108 (thorough) cases; labelled bounded in evidence and never counted as discharged.",
+    "engine": "regauto", "category": "other",
+    "technique": "contract-based deductive verification of the readers' regular expressions (tagged-automata inclusion over all strings of the "
+                 "writer's line languages) and of _find_modulus_key (AST path execution against contracts); bounded run-time contracts for the rest",
+    "text": "Proved for all strings: (1) _find_modulus_key returns c_(group 1) of its search when it matches and the header unchanged otherwise "
+            "(both paths, from the AST); its pattern matches exactly the headers <prefix without digits><digits>, captures the digits, and matches "
+            "nothing else; (2) for every line write_energy can emit from its f-string / %-format templates (any finite values, any natural "
+            "counts) the reader's REGEX_INFO_START and REGEX_PVE match at position 0 and capture exactly the written field tokens, and "
+            "str.split() yields exactly the written coordinates / weights. The (pattern, line) pairs are the ones the real reader performs "
+            "on a file the real writer produced (recorded run). Bounded: write_energy/read_energy round trip for random data sets (counts, P, V, E, "
+            "frequencies, q-coordinates, weights to the written precision), read_elast_data on rendered tables, and `cij fill` on nine systems.",
+    "note": "A-RE (backtracking priority semantics, cross-checked against CPython every run), A-PRINTF, A-SPLIT; line structure / counts and "
+            "float formatting bounded: 40/60/9 (quick) and 1500/2000/108 (thorough) cases, never counted as discharged.",
 }
